@@ -254,11 +254,22 @@ Definition edge_ok (f : func) (C : cert) (F : list fact) (s : N) : bool :=
   (N.ltb s (N.of_nat (List.length f))) &&
   forallb (fun g => has_fact g F && negb (existsb (mentions g) (phi_outs (nth_block f s)))) (cert_at C s).
 
+(* a deleted store of a value the cell already holds changes nothing: the facts before it stay (this is what lets a
+   pass that iterates, like CSE, remove a store and then merge the loads/hashes behind it) *)
+Definition keep (F : list fact) (asz : Z -> Z) (i i' : inst) : bool :=
+  (i_op i' =s "nop") && null (i_outs i') && null (i_outs i)
+  && match store_space (i_op i), i_args i with
+     | Some s, [v; p] => cell_known F asz s p v
+     | _, _ => false
+     end.
+Definition next_facts (strict : bool) (F : list fact) (asz : Z -> Z) (i i' : inst) : list fact :=
+  if keep F asz i i' then F else facts_step strict F asz i.
+
 Fixpoint scan (strict : bool) (f : func) (C : cert) (asz : Z -> Z) (F : list fact) (l l' : list inst) : bool :=
   match l, l' with
   | [], [] => true
   | i :: t, i' :: t' =>
-      justified F asz i i' && forallb (edge_ok f C F) (succs i) && scan strict f C asz (facts_step strict F asz i) t t'
+      justified F asz i i' && forallb (edge_ok f C F) (succs i) && scan strict f C asz (next_facts strict F asz i i') t t'
   | _, _ => false
   end.
 
@@ -317,6 +328,72 @@ Definition empty_cert (f : func) : cert := repeat [] (List.length f).
 
 Definition fwd_check (f f' : func) : bool :=
   fwd_check_with true f f' (infer true f) || fwd_check_with true f f' (empty_cert f).
-(* diagnosis only *)
-Definition fwd_check_liberal (f f' : func) : bool :=
+(* diagnosis only (no theorem): the provenance BasePtrAnalysis computes -- dynamic allocations (dalloca, bump) count as
+   allocations, and a pointer computed by phi / add / sub from pointers into one allocation points into that allocation at
+   an unknown offset.  `liberalize` rewrites such definitions into forms `resolve` understands. *)
+Fixpoint pa_get (pa : list (N * Z)) (x : N) : option Z :=
+  match pa with [] => None | (y, id) :: t => if N.eqb x y then Some id else pa_get t x end.
+Definition pa_op (pa : list (N * Z)) (o : operand) : option Z := match o with OVar y => pa_get pa y | _ => None end.
+Definition pa_inst (pa : list (N * Z)) (i : inst) : option Z :=
+  if i_op i =s "alloca" then match i_args i with [_; OLit id] => Some (id mod W) | _ => None end
+  else if is_in (i_op i) ["dalloca"; "bump"] then match i_outs i with x :: _ => Some (Z.of_N x) | [] => None end
+  else if i_op i =s "assign" then match i_args i with [a] => pa_op pa a | _ => None end
+  else if i_op i =s "add" then
+    match i_args i with
+    | [a; b] => match pa_op pa a, pa_op pa b with Some id, None => Some id | None, Some id => Some id | _, _ => None end
+    | _ => None
+    end
+  else if i_op i =s "sub" then match i_args i with [b; a] => match pa_op pa b with None => pa_op pa a | _ => None end | _ => None end
+  else if i_op i =s "phi" then
+    match flat_map (fun o => match o with OVar y => [pa_get pa y] | _ => [] end) (i_args i) with
+    | Some id :: t => if forallb (fun o => match o with Some id' => id' =? id | None => false end) t then Some id else None
+    | _ => None
+    end
+  else None.
+Definition pa_round (f : func) (pa : list (N * Z)) : list (N * Z) :=
+  fold_left (fun acc i => match i_outs i with
+                          | x :: _ => match pa_get acc x with
+                                      | Some _ => acc
+                                      | None => match pa_inst acc i with Some id => (x, id) :: acc | None => acc end
+                                      end
+                          | [] => acc
+                          end) (List.concat f) pa.
+Definition liberalize (f : func) : func :=
+  let pa := pa_round f (pa_round f (pa_round f (pa_round f []))) in
+  map (map (fun i =>
+    match i_outs i with
+    | [x] =>
+        if is_in (i_op i) ["dalloca"; "bump"] then mkI "alloca" [OLit 0; OLit (Z.of_N x)] [x]
+        else if is_in (i_op i) ["phi"; "add"; "sub"] then
+          match pa_get pa x with
+          | Some id =>
+              let lit := existsb (fun o => match o with OLit _ => true | _ => false end) (i_args i) in
+              if (i_op i =s "phi") || negb lit then mkI "add" [OVar (Z.to_N id); OLab 0] [x] else i
+          | None => i
+          end
+        else i
+    | x :: _ => if is_in (i_op i) ["dalloca"; "bump"] then mkI "alloca" [OLit 0; OLit (Z.of_N x)] [x] else i
+    | [] => i
+    end)) f.
+Definition fwd_check_liberal (f0 f0' : func) : bool :=
+  let f := liberalize f0 in let f' := liberalize f0' in
   fwd_check_with false f f' (infer false f) || fwd_check_with false f f' (empty_cert f).
+
+(* ------------------------------------------------------------------ diagnosis (reports only) *)
+Fixpoint scan_diag (strict : bool) (f : func) (C : cert) (asz : Z -> Z) (F : list fact) (l l' : list inst) (k : Z) : list Z :=
+  match l, l' with
+  | [], [] => []
+  | i :: t, i' :: t' =>
+      if negb (justified F asz i i') then [k; 1]
+      else if negb (forallb (edge_ok f C F) (succs i)) then [k; 2]
+      else scan_diag strict f C asz (next_facts strict F asz i i') t t' (k + 1)
+  | _, _ => [k; 5]
+  end.
+Definition fwd_diag (strict : bool) (f0 f0' : func) : list Z :=
+  let f := if strict then f0 else liberalize f0 in let f' := if strict then f0' else liberalize f0' in
+  let C := infer strict f in
+  let asz := asz_of f in
+  flat_map (fun b => match scan_diag strict f C asz (cert_at C (N.of_nat b)) (body (nth b f [])) (body (nth b f' [])) 0 with
+                     | [] => []
+                     | r => Z.of_nat b :: Z.of_nat (List.length (leading_phis (nth b f []))) :: r
+                     end) (seq 0 (List.length f)).
